@@ -8,6 +8,7 @@ from .drivers import Cfg
 
 def classify(text):
     t = re.sub(r"\[.*?\]$", "", text).strip()
+    t = re.sub(r"\(first octets .*?\)", "", t)
     t = re.sub(r"[0-9a-f]{8,}", "#", t)
     t = re.sub(r"-?\d+", "N", t)
     return t[:120]
